@@ -252,6 +252,8 @@ def run(ctx):
             nm = O.expr_str(prog["expr"], prog["kinds"])
             if nm in HEAVY and not (ctx.thorough and n == 2):
                 continue
+            if "A" in prog["kinds"] or "P" in prog["kinds"]:
+                continue        # engine cross-validation needs no array / public-operand instances (same gadgets, more variables)
             tasks.append(("xval", prog, n, p, E.D(n)))
     random.Random(ctx.seed).shuffle(tasks)
     tasks.sort(key=lambda t: 0 if O.expr_str(t[1]["expr"], t[1]["kinds"]) in HEAVY or t[2] >= 4 else 1)
